@@ -934,6 +934,11 @@ fn blp_codec(seed: u64, alpha_focus: bool) -> String {
             tried += 1;
             let r = catch(move || -> Result<(), String> {
                 let blp = image_to_blp(image::DynamicImage::ImageRgba8(img), mips, target, FilterType::Nearest).map_err(|e| format!("image_to_blp: {}", e))?;
+                if mips {
+                    // the chain halves each dimension (minimum 1) down to 1x1: floor(log2(max(w, h))) + 1 levels
+                    let levels = (32 - w.max(h).leading_zeros()) as usize;
+                    if blp.image_count() != levels.min(16) { return Err(format!("mipmap chain has {} levels, expected {} (each dimension halves, minimum 1, down to 1x1)", blp.image_count(), levels.min(16))); }
+                }
                 let bytes = encode_blp(&blp).map_err(|e| format!("encode_blp: {}", e))?;
                 let back = parse_blp(&bytes).map_err(|e| format!("parse of the encoded bytes failed: {}", e))?;
                 if back != blp { return Err(format!("parsed structure differs from the encoded one (header {:?} vs {:?})", back.header, blp.header)); }
